@@ -351,25 +351,27 @@ def storeIndex (lv iv v : Val) : M Unit :=
     | .none => typeErr
     | _ => unmod
 
-/-- `C(args)` for a token class -/
-def construct (S : Sys) (c : Nat) (args : List Val) : M Val :=
-  if S.ctorOdd c then unmod else
+/-- `C(args)` for a token class: a pure function of the class tables -/
+def constructP (S : Sys) (c : Nat) (args : List Val) : Except Err Val :=
+  if S.ctorOdd c then .error .unmodelled else
   match args with
   | [] => match S.ctor0 c with
-    | some (v, lo) => pure (.tok { cls := c, val := v, lower := lo })
-    | none => typeErr
+    | some (v, lo) => .ok (.tok { cls := c, val := v, lower := lo })
+    | none => .error (.py .typeError)
   | [.str s] => match S.ctor1 c with
-    | .keep => pure (.tok { cls := c, val := s, lower := S.lowerS s })
-    | .fixed v lo => pure (.tok { cls := c, val := v, lower := lo })
-    | .typeError => typeErr
+    | .keep => .ok (.tok { cls := c, val := s, lower := S.lowerS s })
+    | .fixed v lo => .ok (.tok { cls := c, val := v, lower := lo })
+    | .typeError => .error (.py .typeError)
   | [.none] => match S.ctor1 c with
-    | .keep => raise .attributeError          -- None.lower()
-    | .fixed v lo => pure (.tok { cls := c, val := v, lower := lo })
-    | .typeError => typeErr
+    | .keep => .error .attributeError          -- None.lower()
+    | .fixed v lo => .ok (.tok { cls := c, val := v, lower := lo })
+    | .typeError => .error (.py .typeError)
   | [_] => match S.ctor1 c with
-    | .typeError => typeErr
-    | _ => unmod
-  | _ => typeErr
+    | .typeError => .error (.py .typeError)
+    | _ => .error .unmodelled
+  | _ => .error (.py .typeError)
+
+def construct (S : Sys) (c : Nat) (args : List Val) : M Val := fun st => (constructP S c args, st)
 
 def getAttr (S : Sys) (v : Val) (name : Nat) : M Val :=
   match v with
@@ -488,19 +490,25 @@ def doPrim (S : Sys) (p : Prim) (vs : List Val) : M Val :=
 
 /-- `L[X] = C(L[X].get_value())` / `L[X] = C()` with `L`, `X`, `C` local variables: callee first, then the
     argument, then the call, then the target (`L`, `X` are read again: nothing in between can change them) -/
+def retagArgs (l x : Nat) (withValue : Bool) : M (List Val) :=
+  if withValue then do
+    let lv ← getVar l
+    let iv ← getVar x
+    let o ← indexVal lv iv
+    let t ← tokArg o
+    pure [Val.str t.val]
+  else pure []
+
+def retagCtor (S : Sys) (cv : Val) (args : List Val) : M Val :=
+  match cv with
+  | .cls k => construct S k args
+  | .none => typeErr
+  | _ => unmod
+
 def retag (S : Sys) (l x c : Nat) (withValue : Bool) : M Unit := do
   let cv ← getVar c
-  let args ← (if withValue then do
-      let lv ← getVar l
-      let iv ← getVar x
-      let o ← indexVal lv iv
-      let t ← tokArg o
-      pure [Val.str t.val]
-    else pure [])
-  let v ← (match cv with
-    | .cls k => construct S k args
-    | .none => typeErr
-    | _ => unmod)
+  let args ← retagArgs l x withValue
+  let v ← retagCtor S cv args
   let lv ← getVar l
   let iv ← getVar x
   storeIndex lv iv v
